@@ -6,11 +6,11 @@ Local Open Scope string_scope. Local Open Scope list_scope.
 
 Definition tv (prog : stmt) : list string := filter (fun _ => true) (nodup string_dec (hoist_vars prog)).
 Definition tenv (prog : stmt) : list (string * nat) :=
-  rev (alloc_names (map fst (hoist_funs prog)) (S (List.length (tv prog)))) ++
-  rev (alloc_names (tv prog) 1) ++ [("inputs", 0)].
+  rev (alloc_names (map fst (hoist_funs prog)) (S (S (S (List.length (tv prog)))))) ++
+  rev (alloc_names (tv prog) 3) ++ genv.
 Definition tstore (prog : stmt) : list val :=
-  VInp :: map (fun _ => VUndef) (tv prog) ++
-          map (fun f : string * (list string * stmt) => VClos (tenv prog) (fst (snd f)) (snd (snd f))) (hoist_funs prog).
+  gstore ++ map (fun _ => VUndef) (tv prog) ++
+            map (fun f : string * (list string * stmt) => VClos (tenv prog) (fst (snd f)) (snd (snd f))) (hoist_funs prog).
 
 Lemma run_top inp n lib body :
   run inp n lib body = exec inp n (tenv (SSeq lib body)) (SSeq lib body) (tstore (SSeq lib body), []).
@@ -34,29 +34,30 @@ Lemma SOK_init prog L : okb_s true L prog = true -> SOK (tenv prog) (ad_s prog) 
 Proof.
   intros Hok.
   assert (Fg : Forall (good_val (tenv prog) (ad_s prog)) (tstore prog)).
-  { unfold tstore. constructor; [exact Logic.I|]. apply Forall_app. split.
+  { unfold tstore, gstore. repeat (constructor; [exact Logic.I|]). apply Forall_app. split.
     - apply Forall_forall. intros v Hv. apply in_map_iff in Hv. destruct Hv as [_ [<- _]]. exact Logic.I.
     - apply Forall_forall. intros v Hv. apply in_map_iff in Hv. destruct Hv as [f [<- Hf]].
       destruct (funs_ok prog L Hok f Hf) as [A [B C]]. simpl. repeat split; assumption. }
-  assert (Fn : Forall (fun v => v <> VInp)
-                 (map (fun _ : string => VUndef) (tv prog) ++
-                  map (fun f : string * (list string * stmt) => VClos (tenv prog) (fst (snd f)) (snd (snd f))) (hoist_funs prog))).
-  { apply Forall_app. split; apply Forall_forall; intros v Hv; apply in_map_iff in Hv; destruct Hv as [? [<- _]]; discriminate. }
+  assert (Fn : Forall (fun v => v <> VInp) (tl (tstore prog))).
+  { unfold tstore, gstore. cbn [app tl]. repeat (constructor; [discriminate|]).
+    apply Forall_app. split; apply Forall_forall; intros v Hv; apply in_map_iff in Hv; destruct Hv as [? [<- _]]; discriminate. }
   unfold SOK. cbn [fst snd]. split; [|split].
   - intros l. apply nth_Forall; [exact Fg|exact Logic.I].
-  - intros l Hl. destruct l as [|l']; [lia|]. unfold tstore. cbn [nth].
+  - intros l Hl. destruct l as [|l']; [lia|].
+    change (nth (S l') (tstore prog) VUndef) with (nth l' (tl (tstore prog)) VUndef).
     apply (nth_Forall (fun v => v <> VInp)); [exact Fn|discriminate].
-  - unfold tstore. simpl. lia.
+  - unfold tstore, gstore. simpl. lia.
 Qed.
 
-Lemma LocalEnv_init prog L : mem "inputs" L = false -> LocalEnv L 1 (tenv prog).
+Lemma LocalEnv_init prog L :
+  mem "inputs" L = false -> LocalEnv L 1 (tenv prog).
 Proof.
   intros Hi x l Hm A. apply assoc_in in A. unfold tenv in A.
   apply in_app_or in A. destruct A as [A|A].
   - apply in_rev, alloc_in_ge in A. lia.
   - apply in_app_or in A. destruct A as [A|A].
-    + apply in_rev, alloc_in_ge in A. exact A.
-    + destruct A as [A|[]]. inversion A; subst. congruence.
+    + apply in_rev, alloc_in_ge in A. lia.
+    + apply genv_cases in A. destruct A as [[-> _]|[[_ ->]|[_ ->]]]; [congruence|lia|lia].
 Qed.
 
 (* C31_sound_functions_partial *)
@@ -71,8 +72,8 @@ Proof.
   destruct (A_all inp (tenv prog) (ad_s prog) n) as [_ [_ As]].
   destruct (As true _ 1 _ prog _ c s Hok Hni (LocalEnv_init prog _ Hni) (SOK_init prog _ Hok) H) as [_ [_ [R _]]].
   destruct W_all as [_ [_ Ws]].
-  destruct (Ws prog true _ [] [] Hok Hni (or_introl eq_refl)) as [D' [E [_ A]]].
-  exists (WN [] D'). split; [exact E|].
+  destruct (Ws prog true ["inputs"] _ [] [] Hok Hni (Gok_inputs _ Hni) (fun _ => eq_refl) (or_introl eq_refl)) as [D' [E [_ A]]].
+  exists (WN ["inputs"] [] D'). split; [exact E|].
   intros k Hk. destruct (R k Hk) as [[]|Hk']. simpl.
   apply A. apply in_app_iff in Hk'. destruct Hk'; assumption.
 Qed.
@@ -82,56 +83,7 @@ Proof.
   intros lib body Hfr. unfold in_fragmentF in Hfr.
   apply andb_true_iff in Hfr. destruct Hfr as [Hok Hni]. apply negb_true_iff in Hni.
   destruct W_all as [_ [_ Ws]].
-  destruct (Ws (SSeq lib body) true _ [] [] Hok Hni (or_introl eq_refl)) as [D' [E _]].
-  exists (WN [] D'). exact E.
+  destruct (Ws (SSeq lib body) true ["inputs"] _ [] [] Hok Hni (Gok_inputs _ Hni) (fun _ => eq_refl) (or_introl eq_refl)) as [D' [E _]].
+  exists (WN ["inputs"] [] D'). exact E.
 Qed.
 
-(* ---------------------------------------------------------------------------------------------- *)
-(* whole interpolated strings *)
-
-Lemma parts_sound_acc inp n lib : forall ps acc R,
-  parts_in_fragment lib ps = true ->
-  run_parts inp n lib ps acc = Some R ->
-  exists D, deps_parts lib ps = inr D /\ forall k, In k R -> In k acc \/ In k D.
-Proof.
-  induction ps as [|p ps IH]; intros acc R Hok H; simpl in H.
-  - inversion H; subst. exists []. split; [reflexivity|auto].
-  - simpl in Hok. apply andb_true_iff in Hok. destruct Hok as [Hp Hps].
-    destruct p as [t|root segs|body]; simpl.
-    + apply (IH acc R Hps H).
-    + destruct (String.eqb root "inputs") eqn:Er.
-      * apply String.eqb_eq in Er. subst root.
-        destruct (run_ref inp n "inputs" segs) as [c s| | |] eqn:E; try discriminate.
-        destruct (IH _ R Hps H) as [D [ED HD]]. rewrite ED.
-        exists (deps_ref "inputs" "inputs" segs ++ D). split; [reflexivity|].
-        assert (Hs : match segs with SgIdx _ :: _ => False | g :: _ => seg_key g <> "" | [] => True end).
-        { simpl in Hp. destruct segs as [|g r]; [exact Logic.I|].
-          destruct g; try discriminate; apply negb_true_iff in Hp; intros C; rewrite C in Hp; discriminate. }
-        pose proof (paramref_sound inp n segs c s Hs E) as Hin.
-        intros k Hk. destruct (HD k Hk) as [Hk'|Hk']; [|right; apply in_app_iff; right; exact Hk'].
-        apply in_app_iff in Hk'. destruct Hk' as [Hk'|Hk']; [|left; exact Hk'].
-        right. apply in_app_iff. left. apply Hin; exact Hk'.
-      * destruct (IH acc R Hps H) as [D [ED HD]]. rewrite ED.
-        exists (deps_ref "inputs" root segs ++ D). split; [reflexivity|].
-        intros k Hk. destruct (HD k Hk) as [Hk'|Hk']; [left; exact Hk'|right; apply in_app_iff; right; exact Hk'].
-    + destruct (run inp n lib body) as [c s| | |] eqn:E; try discriminate.
-      assert (exists w, deps_js lib body = WOk w /\ incl (snd s) (dp w)) as [w [Ew Hin]].
-      { simpl in Hp. apply orb_true_iff in Hp. destruct Hp as [Hp|Hp].
-        - eapply sound_functions; eauto.
-        - destruct lib; try discriminate. eapply sound_partial; eauto. }
-      rewrite Ew. destruct (IH _ R Hps H) as [D [ED HD]]. rewrite ED.
-      exists (dp w ++ D). split; [reflexivity|].
-      intros k Hk. destruct (HD k Hk) as [Hk'|Hk']; [|right; apply in_app_iff; right; exact Hk'].
-      apply in_app_iff in Hk'. destruct Hk' as [Hk'|Hk']; [|left; exact Hk'].
-      right. apply in_app_iff. left. apply Hin; exact Hk'.
-Qed.
-
-(* C31_sound_interpolation_partial *)
-Theorem parts_sound : forall inp n lib ps R,
-  parts_in_fragment lib ps = true ->
-  run_parts inp n lib ps [] = Some R ->
-  exists D, deps_parts lib ps = inr D /\ incl R D.
-Proof.
-  intros inp n lib ps R Hok H. destruct (parts_sound_acc inp n lib ps [] R Hok H) as [D [E HD]].
-  exists D. split; [exact E|]. intros k Hk. destruct (HD k Hk) as [[]|Hk']. exact Hk'.
-Qed.
